@@ -24,14 +24,15 @@ Lemma newtx22_snoc s s' l : wab2 s' = wab2 s ++ l -> newtx22 s s' = map (fun f =
 Proof. intros E. unfold newtx22. rewrite E, skipn_app, skipn_all, Nat.sub_diag. reflexivity. Qed.
 
 Section BamLoop22.
-  Variables (prio sa dp pf : Z) (p : list Z) (t0 : Z) (A0 B0 : node22).
+  Variables (prio sa dp pf ps : Z) (p : list Z) (t0 : Z) (A0 B0 : node22).
   Hypothesis Hprio : 0 <= prio < 8.
   Hypothesis Hsa : 0 <= sa < 255.
-  Hypothesis Hpf : 0 <= pf < 240.
+  (* a PDU1 group sent to the global address, or a PDU2 group (a broadcast whatever its group extension) *)
+  Hypothesis Hkind : (0 <= pf < 240 /\ ps = 255) \/ (240 <= pf < 256 /\ 0 <= ps < 256).
   Hypothesis Hdp : 0 <= dp < 2.
   Hypothesis Hsize : 60 < len p < 16777216.
   Hypothesis Ht0 : 0 < t0.
-  Let pv := dp * 65536 + pf * 256.
+  Let pv := if pf <? 240 then dp * 65536 + pf * 256 else dp * 65536 + pf * 256 + ps.
   Let ns := ((length p + 59) / 60)%nat.
   Let nseg := Z.of_nat ns.
   Let G := addr_GLOBAL.
@@ -50,7 +51,7 @@ Section BamLoop22.
   Lemma bnseg_range : 2 <= nseg < 16777216.
   Proof. pose proof bns_range. unfold nseg. unfold len in Hsize. lia. Qed.
   Lemma bpv_range : 0 <= pv < 262144.
-  Proof. unfold pv. lia. Qed.
+  Proof. unfold pv. destruct (pf <? 240); lia. Qed.
 
   Definition sbm (st dl nx : Z) (d : list (list Z)) : sbuf22 :=
     {| t_pgn := pv; t_prio := prio; t_session := 0; t_size := len p; t_nseg := nseg; t_data := d; t_state := st;
@@ -59,15 +60,27 @@ Section BamLoop22.
   Definition bpool1 : list bool := false :: repeat true 3.
 
   Lemma send_pgn22_bam a now : f_snd a = [] -> f_bam a = repeat true tp22_pool_bam ->
-    flat22 (send_pgn22 a now dp pf 255 prio sa p 0 ff_FEFF) =
+    flat22 (send_pgn22 a now dp pf ps prio sa p 0 ff_FEFF) =
     (wake22 (set_fsnd (set_fbam a bpool1) [(h, sbm tp22_st_SENDING_BAM (now + f_bam_iv a) 0 (segments p))]), [OTx bam22], RDone 1).
   Proof.
-    intros Hs Hb. unfold send_pgn22. unfold pgn_mk. rewrite !land_255, land_1. rewrite !Z.mod_small by lia.
+    intros Hs Hb. unfold send_pgn22. unfold pgn_mk. rewrite !land_255, land_1.
+    assert (Hpfr : 0 <= pf < 256) by lia. assert (Hpsr : 0 <= ps < 256) by lia.
+    rewrite !Z.mod_small by lia.
     assert ((len p <=? tp22_TP) = false) as -> by (unfold tp22_TP; lia).
-    change (255 =? addr_GLOBAL) with true. cbn [orb]. rewrite Hb. cbn [tp22_pool_bam repeat pool_get]. rewrite bnseg_model.
-    assert (pgn_is_pdu1 pf = true) as ->.
-    { unfold pgn_is_pdu1. destruct (Z.geb pf 0 && Z.leb pf 239) eqn:E; [reflexivity|lia]. }
-    rewrite pgn_value_arith by lia. replace (dp * 65536 + pf * 256 + 0) with pv by (unfold pv; lia).
+    assert (Hd : ((ps =? addr_GLOBAL) || pgn_is_pdu2_of 0 pf ps) = true).
+    { destruct Hkind as [(H1 & ->)|(H1 & H2)]; [reflexivity|].
+      unfold pgn_is_pdu2_of, pgn_mk. rewrite !land_255. rewrite (Z.mod_small pf) by lia.
+      unfold pgn_is_pdu2. destruct (Z.geb pf 240 && Z.leb pf 255) eqn:E; [apply orb_true_r|lia]. }
+    rewrite Hd. rewrite Hb. cbn [tp22_pool_bam repeat pool_get]. rewrite bnseg_model.
+    assert (Hpv : pgn_value dp pf (if pgn_is_pdu1 pf then 0 else ps) = pv).
+    { unfold pv. destruct Hkind as [(H1 & H2)|(H1 & H2)].
+      - assert (pgn_is_pdu1 pf = true) as ->.
+        { unfold pgn_is_pdu1. destruct (Z.geb pf 0 && Z.leb pf 239) eqn:E; [reflexivity|lia]. }
+        assert ((pf <? 240) = true) as -> by lia. rewrite pgn_value_arith by lia. lia.
+      - assert (pgn_is_pdu1 pf = false) as ->.
+        { unfold pgn_is_pdu1. destruct (Z.geb pf 0 && Z.leb pf 239) eqn:E; [lia|reflexivity]. }
+        assert ((pf <? 240) = false) as -> by lia. rewrite pgn_value_arith by lia. reflexivity. }
+    rewrite Hpv.
     cbn [flat22 f_snd set_fbam f_bam_iv]. rewrite Hs. reflexivity.
   Qed.
 
@@ -439,7 +452,7 @@ Section BamLoop22.
       apply (IH (ns - S k)%nat ltac:(lia) (S k)); [reflexivity|]. apply M3. apply M2; [exact Hd|lia].
   Qed.
 
-  Lemma bstart : Bm0 (net22_send (net22_0 A0 B0 t0) dp pf 255 prio sa p).
+  Lemma bstart : Bm0 (net22_send (net22_0 A0 B0 t0) dp pf ps prio sa p).
   Proof.
     destruct HA as (As & Ar & Am & At & Ap). destruct HB as (Bs & Br & Bm & Bt).
     unfold net22_send, net22_0. cbn [fa fb pa pb fclk eva2 evb2 wab2 wba2].
@@ -453,7 +466,7 @@ Section BamLoop22.
       split; [exact Br|]. split; reflexivity.
   Qed.
 
-  Theorem bam_closed_loop22 : breaches (net22_send (net22_0 A0 B0 t0) dp pf 255 prio sa p).
+  Theorem bam_closed_loop22 : breaches (net22_send (net22_0 A0 B0 t0) dp pf ps prio sa p).
   Proof. apply breaches_step. apply (wait_reaches (ns - 0)%nat 0%nat); [reflexivity|]. apply M0. apply bstart. Qed.
 
   (* ---- the same run with the time of every frame A puts on the wire *)
@@ -502,18 +515,42 @@ Section BamLoop22.
         rewrite C1. unfold tail_log. replace (ns - k)%nat with (S (ns - S k)) by lia. reflexivity.
   Qed.
 
-  Theorem bam_closed_loop22_timed : treaches (net22_send (net22_0 A0 B0 t0) dp pf 255 prio sa p) (tail_log 0).
+  Theorem bam_closed_loop22_timed : treaches (net22_send (net22_0 A0 B0 t0) dp pf ps prio sa p) (tail_log 0).
   Proof.
     pose proof bstart as H0. pose proof (M0 _ H0) as H1.
-    replace (tail_log 0) with (newtx22 (net22_send (net22_0 A0 B0 t0) dp pf 255 prio sa p)
-                                       (step22 (net22_send (net22_0 A0 B0 t0) dp pf 255 prio sa p)) ++ tail_log 0).
+    replace (tail_log 0) with (newtx22 (net22_send (net22_0 A0 B0 t0) dp pf ps prio sa p)
+                                       (step22 (net22_send (net22_0 A0 B0 t0) dp pf ps prio sa p)) ++ tail_log 0).
     - apply treaches_step. apply (wait_treaches (ns - 0)%nat 0%nat); [reflexivity|exact H1].
     - rewrite newtx22_same; [reflexivity|].
       rewrite (wait_w _ _ H1). destruct H0 as (_ & _ & _ & _ & _ & _ & _ & Hw). rewrite Hw. reflexivity.
   Qed.
 End BamLoop22.
 
-(* T02.10: the FD broadcast closed loop, stated without the proof's vocabulary *)
+(* T02.10: the FD broadcast closed loop, stated without the proof's vocabulary — for a PDU1 group sent to the global address and
+   for a PDU2 group with any group extension (delivered under PGN dp.pf.ps) *)
+Definition bam_pgn22 (dp pf ps : Z) : Z := if pf <? 240 then dp * 65536 + pf * 256 else dp * 65536 + pf * 256 + ps.
+
+Theorem bam_closed_loop22_delivers_any prio sa dp pf ps p t0 A0 B0 :
+  0 <= prio < 8 -> 0 <= sa < 255 -> (0 <= pf < 240 /\ ps = 255) \/ (240 <= pf < 256 /\ 0 <= ps < 256) ->
+  0 <= dp < 2 -> 60 < len p < 16777216 -> 0 < t0 ->
+  0 < f_bam_iv A0 < tp22_T1 -> 2 * f_bam_iv A0 < tp22_T1 ->
+  f_snd A0 = [] /\ f_rcv A0 = [] /\ f_mpg A0 = [] /\ n_timers (base A0) = [] /\ f_bam A0 = repeat true tp22_pool_bam ->
+  f_snd B0 = [] /\ f_rcv B0 = [] /\ f_mpg B0 = [] /\ n_timers (base B0) = [] ->
+  let pv := bam_pgn22 dp pf ps in
+  let ns := ((length p + 59) / 60)%nat in
+  exists j, let s := steps22 j (net22_send (net22_0 A0 B0 t0) dp pf ps prio sa p) in
+    pa s = [] /\ pb s = [] /\ f_snd (fa s) = [] /\ f_rcv (fa s) = [] /\ f_snd (fb s) = [] /\ f_rcv (fb s) = [] /\
+    f_bam (fa s) = repeat true tp22_pool_bam /\
+    evb2 s = deliveries (base B0) 7 pv sa addr_GLOBAL p /\
+    wab2 s = tp22_bam prio sa 0 pv (len p) (Z.of_nat ns)
+             :: map (fun k => match dt_frame sa addr_GLOBAL 0 (Z.of_nat k + 1) (row p k) with
+                              | Some (fr, _) => fr | None => tp22_bam prio sa 0 pv (len p) (Z.of_nat ns) end) (seq 0 ns)
+             ++ [tp22_eom_status sa addr_GLOBAL 0 (len p) (Z.of_nat ns) pv].
+Proof.
+  intros H1 H2 H3 H4 H5 H6 H7 H8 HA HB pv ns.
+  destruct (bam_closed_loop22 prio sa dp pf ps p t0 A0 B0 H1 H2 H3 H4 H5 H6 H7 HA HB H8) as (j & H). exists j. exact H.
+Qed.
+
 Theorem bam_closed_loop22_delivers prio sa dp pf p t0 A0 B0 :
   0 <= prio < 8 -> 0 <= sa < 255 -> 0 <= pf < 240 -> 0 <= dp < 2 -> 60 < len p < 16777216 -> 0 < t0 ->
   0 < f_bam_iv A0 < tp22_T1 -> 2 * f_bam_iv A0 < tp22_T1 ->
@@ -531,11 +568,38 @@ Theorem bam_closed_loop22_delivers prio sa dp pf p t0 A0 B0 :
              ++ [tp22_eom_status sa addr_GLOBAL 0 (len p) (Z.of_nat ns) pv].
 Proof.
   intros H1 H2 H3 H4 H5 H6 H7 H8 HA HB pv ns.
-  destruct (bam_closed_loop22 prio sa dp pf p t0 A0 B0 H1 H2 H3 H4 H5 H6 H7 HA HB H8) as (j & H). exists j. exact H.
+  pose proof (bam_closed_loop22_delivers_any prio sa dp pf 255 p t0 A0 B0 H1 H2 (or_introl (conj H3 eq_refl)) H4 H5 H6 H7 H8 HA HB) as H.
+  unfold bam_pgn22 in H. assert ((pf <? 240) = true) as E by lia. rewrite E in H. exact H.
 Qed.
 
 (* T09.16: the same run with its times: the data frame of segment k leaves at t0 + (k+1)·iv, the end-of-message status one
    interval after the last — consecutive frames of the broadcast are exactly the configured interval apart *)
+Theorem bam_closed_loop22_paced_any prio sa dp pf ps p t0 A0 B0 :
+  0 <= prio < 8 -> 0 <= sa < 255 -> (0 <= pf < 240 /\ ps = 255) \/ (240 <= pf < 256 /\ 0 <= ps < 256) ->
+  0 <= dp < 2 -> 60 < len p < 16777216 -> 0 < t0 ->
+  0 < f_bam_iv A0 < tp22_T1 -> 2 * f_bam_iv A0 < tp22_T1 ->
+  f_snd A0 = [] /\ f_rcv A0 = [] /\ f_mpg A0 = [] /\ n_timers (base A0) = [] /\ f_bam A0 = repeat true tp22_pool_bam ->
+  f_snd B0 = [] /\ f_rcv B0 = [] /\ f_mpg B0 = [] /\ n_timers (base B0) = [] ->
+  let pv := bam_pgn22 dp pf ps in
+  let ns := ((length p + 59) / 60)%nat in
+  let iv := f_bam_iv A0 in
+  let s0 := net22_send (net22_0 A0 B0 t0) dp pf ps prio sa p in
+  wab2 s0 = [tp22_bam prio sa 0 pv (len p) (Z.of_nat ns)] /\ fclk s0 = t0 /\
+  exists j, (pa (steps22 j s0) = [] /\ pb (steps22 j s0) = [] /\ f_snd (fa (steps22 j s0)) = [] /\ f_rcv (fb (steps22 j s0)) = [] /\
+             evb2 (steps22 j s0) = deliveries (base B0) 7 pv sa addr_GLOBAL p) /\
+    tlog22 j s0 = map (fun k => (t0 + Z.of_nat (S k) * iv, dtfb prio sa dp pf ps p k)) (seq 0 ns)
+                  ++ [(t0 + Z.of_nat (S ns) * iv, tp22_eom_status sa addr_GLOBAL 0 (len p) (Z.of_nat ns) pv)].
+Proof.
+  intros H1 H2 H3 H4 H5 H6 H7 H8 HA HB pv ns iv s0.
+  pose proof (bstart prio sa dp pf ps p t0 A0 B0) as HS.
+  repeat match type of HS with ?P -> _ => specialize (HS ltac:(assumption)) end.
+  destruct HS as (Hc & _ & _ & _ & _ & _ & _ & Hw).
+  split; [exact Hw|]. split; [exact Hc|].
+  destruct (bam_closed_loop22_timed prio sa dp pf ps p t0 A0 B0 H1 H2 H3 H4 H5 H6 H7 HA HB H8) as (j & Hd & Hl). exists j.
+  split; [|unfold s0; rewrite Hl; unfold tail_log; rewrite Nat.sub_0_r; reflexivity].
+  destruct Hd as (Q1 & Q2 & Q3 & Q4 & Q5 & Q6 & Q7 & Q8 & _). repeat split; assumption.
+Qed.
+
 Theorem bam_closed_loop22_paced prio sa dp pf p t0 A0 B0 :
   0 <= prio < 8 -> 0 <= sa < 255 -> 0 <= pf < 240 -> 0 <= dp < 2 -> 60 < len p < 16777216 -> 0 < t0 ->
   0 < f_bam_iv A0 < tp22_T1 -> 2 * f_bam_iv A0 < tp22_T1 ->
@@ -548,18 +612,23 @@ Theorem bam_closed_loop22_paced prio sa dp pf p t0 A0 B0 :
   wab2 s0 = [tp22_bam prio sa 0 pv (len p) (Z.of_nat ns)] /\ fclk s0 = t0 /\
   exists j, (pa (steps22 j s0) = [] /\ pb (steps22 j s0) = [] /\ f_snd (fa (steps22 j s0)) = [] /\ f_rcv (fb (steps22 j s0)) = [] /\
              evb2 (steps22 j s0) = deliveries (base B0) 7 pv sa addr_GLOBAL p) /\
-    tlog22 j s0 = map (fun k => (t0 + Z.of_nat (S k) * iv, dtfb prio sa dp pf p k)) (seq 0 ns)
+    tlog22 j s0 = map (fun k => (t0 + Z.of_nat (S k) * iv,
+                                 match dt_frame sa addr_GLOBAL 0 (Z.of_nat k + 1) (row p k) with
+                                 | Some (fr, _) => fr | None => tp22_bam prio sa 0 pv (len p) (Z.of_nat ns) end)) (seq 0 ns)
                   ++ [(t0 + Z.of_nat (S ns) * iv, tp22_eom_status sa addr_GLOBAL 0 (len p) (Z.of_nat ns) pv)].
 Proof.
   intros H1 H2 H3 H4 H5 H6 H7 H8 HA HB pv ns iv s0.
-  pose proof (bstart prio sa dp pf p t0 A0 B0) as HS.
-  repeat match type of HS with ?P -> _ => specialize (HS ltac:(assumption)) end.
-  destruct HS as (Hc & _ & _ & _ & _ & _ & _ & Hw).
-  split; [exact Hw|]. split; [exact Hc|].
-  destruct (bam_closed_loop22_timed prio sa dp pf p t0 A0 B0 H1 H2 H3 H4 H5 H6 H7 HA HB H8) as (j & Hd & Hl). exists j.
-  split; [|unfold s0; rewrite Hl; unfold tail_log; rewrite Nat.sub_0_r; reflexivity].
-  destruct Hd as (Q1 & Q2 & Q3 & Q4 & Q5 & Q6 & Q7 & Q8 & _). repeat split; assumption.
+  pose proof (bam_closed_loop22_paced_any prio sa dp pf 255 p t0 A0 B0 H1 H2 (or_introl (conj H3 eq_refl)) H4 H5 H6 H7 H8 HA HB) as H.
+  unfold bam_pgn22, dtfb, bam22 in H. assert ((pf <? 240) = true) as E by lia. rewrite E in H. exact H.
 Qed.
+
+Example bam_closed_loop22_pdu2_instance :
+  let A := init_node22 3 None None in
+  let B := sub22 (init_node22 2 None None) 7 FNone in
+  let p := map Z.of_nat (seq 1 150) in
+  let s := steps22 13 (net22_send (net22_0 A B 1000) 0 254 202 6 128 p) in
+  quiet22 s = true /\ evb2 s = [OCb 7 7 65226 128 p] /\ length (wab2 s) = 5%nat /\ wba2 s = [].
+Proof. vm_compute. repeat split. Qed.
 
 Example bam_closed_loop22_instance :
   let A := init_node22 3 None None in
